@@ -2,6 +2,7 @@
 mod absty;
 mod absval;
 mod bind;
+mod builder;
 mod corpus;
 mod fuzz;
 mod gen;
@@ -15,6 +16,7 @@ mod principal;
 mod prog;
 mod proj;
 mod rnd;
+mod session;
 mod sub;
 mod suite;
 mod text;
@@ -41,6 +43,8 @@ fn main() {
         "prog" => prog::run(&o),
         "principal" => principal::run(&o),
         "rand" => rnd::run(&o),
+        "session" => session::run(&o),
+        "builder" => builder::run(&o),
         m => { eprintln!("usage: unknown mode {m}"); std::process::exit(2); }
     }
 }
